@@ -14,6 +14,8 @@ import (
 
 // ---------- obj-marshal -----------------------------------------------------------
 
+var poisonOrder int
+
 // marshalTokens drives obj.Marshaller over v; returns class, tokens emitted.
 func marshalTokens(atl atlas.Atlas, v interface{}, budget int) (class string, toks []tok.Token) {
 	defer func() {
@@ -34,6 +36,27 @@ func marshalTokens(atl atlas.Atlas, v interface{}, budget int) (class string, to
 			}
 		}
 	}()
+	// ... and streams the consumer abandoned at every early point (right after a map key, inside a nested
+	// list, ...): Bind is a full reset
+	// (the LAST abandoned stream ends right after a key: of the top-level map or of the nested one, alternately)
+	poisonOrder++
+	stops := []int{1, 3, 5, 6, 4, 2}
+	if poisonOrder%2 == 0 {
+		stops = []int{1, 3, 5, 6, 2, 4}
+	}
+	for _, stop := range stops {
+		func() {
+			defer func() { recover() }()
+			if m.Bind(map[string]interface{}{"a": map[string]interface{}{"k": []interface{}{1, 2}}, "b": 2}) == nil {
+				var slot tok.Token
+				for i := 0; i < stop; i++ {
+					if done, err := m.Step(&slot); done || err != nil {
+						break
+					}
+				}
+			}
+		}()
+	}
 	if err := m.Bind(v); err != nil {
 		return "binderr", nil
 	}
@@ -457,6 +480,9 @@ func fixedTargets() []string {
 		"(env (15 s) (14 s)) (atlas 0 (e (st 15) - (smap (fld 77 (0) s 0 0))) (e (st 14) 50 (tr 5 (st 15)))) a",
 		"(env (20 i64) (21 s (pt i))) (atlas 0 (e (st 20) - (smap (fld 72 (0) i64 0 0))) (e (st 21) 7 (smap (fld 73 (0) s 0 0) (fld 6e (1) (pt i) 0 0))) (e (if 30) - (un (636972636c65 (st 20)) (737175617265 (st 21))))) (if 30)",
 		"(env) (atlas 0 (e (nm 10 s) 50 (tr 1 s))) (sl (nm 10 s))",
+		// sibling fields served by one slab row: a map with transformed struct keys, then plain string-keyed maps
+		"(env (16 s s) (100 (mp (st 16) i) (mp s i) (mp s s))) (atlas 0 (e (st 16) - (tr 6 s)) (e (st 100) - (smap (fld 61 (0) (mp (st 16) i) 0 0) (fld 62 (1) (mp s i) 0 0) (fld 63 (2) (mp s s) 0 0)))) (st 100)",
+		"(env (16 s s)) (atlas 0 (e (st 16) - (tr 6 s))) (sl a)",
 	}
 }
 
